@@ -148,6 +148,15 @@ impl Response {
                     self.headers.set().ContentLength(None);
                 }
             }
+            (Content::None, status)
+                if !matches!(status.code(), 100..=199 | 304)
+                && self.headers.ContentLength().is_none()
+                && self.headers.TransferEncoding().is_none()
+            => {
+                /* without any declared length, a client can know the end of
+                   this response only by waiting for the connection to close */
+                self.headers.set().ContentLength("0");
+            }
             _ => (/* let it go by user's responsibility */)
         }
     }
